@@ -687,3 +687,54 @@ Section CoverRatio34.
     - pose proof (Wx_open C D (valueof x0) HD HDC Hx0 ltac:(lia) Hgap). lia.
     - pose proof (Wx_le C D (valueof x0) HD HDC ltac:(lia)). lia.
   Qed.
+
+  (** ---- a bin of the main loop opened by the two largest medium items ---- *)
+  Lemma binY_single C D big m1 used : 0 < C -> Dok C big [] D -> desc big ->
+    Forall (bigp C) big -> medp C m1 ->
+    zsum (map valueof (firstn 1 big)) < valueof m1 ->
+    wsum4 C D used <= room C D (valueof m1) ->
+    3 * wsum4 C D (m1 :: used) <= 24 * D.
+  Proof.
+    intros HC (HD & HDC & Hcase) Hsb Hb [Hm3 Hm2] Hcmp Hused.
+    assert (HDeq : D = C).
+    { destruct Hcase as [H|[(x & Hin & HxC & H)|(y & Hin & _)]]; [exact H| |destruct Hin].
+      pose proof (head_ge big x Hsb Hin) as Hh. rewrite Forall_forall in Hb.
+      specialize (Hb x Hin). unfold bigp in Hb. lia. }
+    subst D. rewrite wsum4_cons. unfold room in Hused.
+    destruct (valueof m1 <? C) eqn:E; [|lia].
+    destruct (W4_C C (valueof m1) HC ltac:(lia)) as [W1 _]. lia.
+  Qed.
+
+  Lemma binY_pair C D big m1 m2 rest used : 0 < C -> Dok C big rest D -> desc big ->
+    desc (m1 :: m2 :: rest) -> Forall (medp C) (m1 :: m2 :: rest) ->
+    zsum (map valueof (firstn 1 big)) < valueof m1 + valueof m2 ->
+    wsum4 C D used <= room C D (valueof m1 + valueof m2) ->
+    3 * wsum4 C D (m1 :: m2 :: used) + Bud C D rest <= 24 * D + Bud C D (m1 :: m2 :: rest).
+  Proof.
+    intros HC (HD & HDC & Hcase) Hsb Hsm Hm Hcmp Hused.
+    inversion Hm as [|a1 l1 [H13 H12] Hm']; subst a1 l1.
+    inversion Hm' as [|a2 l2 [H23 H22] Hrest]; subst a2 l2.
+    inversion Hsm as [|a1 l1 Hsm2 Hle1]; subst a1 l1.
+    inversion Hsm2 as [|a2 l2 _ Hle2]; subst a2 l2.
+    inversion Hle1 as [|a2 l2 H21 _]; subst a2 l2.
+    rewrite !wsum4_cons. unfold room in Hused.
+    destruct (valueof m1 + valueof m2 <? C) eqn:E; [|lia].
+    assert (Hrest_le : Bud C D rest <= Bud C D (m1 :: m2 :: rest)).
+    { apply Bud_incl; [exact HD|]. intros a Ha. right. right. exact Ha. }
+    assert (Hramp : 3 * (C - 2 * valueof m2) <= D ->
+      3 * (W4 C D (valueof m1) + (W4 C D (valueof m2) + wsum4 C D used)) <= 24 * D).
+    { intros Hr. rewrite (Wy_ramp C D (valueof m1)), (Wy_ramp C D (valueof m2)); lia. }
+    destruct Hcase as [H|[(x & Hin & HxC & H)|(y & Hin & H)]].
+    - specialize (Hramp ltac:(lia)). lia.
+    - destruct (Z_le_gt_dec (3 * (C - 2 * valueof m2)) D) as [Hr|Hr]; [specialize (Hramp Hr); lia|].
+      pose proof (head_ge big x Hsb Hin) as Hh.
+      rewrite (Wy_flat C D (valueof m2)) by lia.
+      pose proof (Wy_le C D (valueof m1) HD H13 H12) as Hw1.
+      rewrite (Bud_in C D (m1 :: m2 :: rest) m1); [|left; reflexivity|lia].
+      rewrite (Bud_none C D rest); [lia|].
+      rewrite Forall_forall in Hle2 |- *. intros a Ha. specialize (Hle2 a Ha). cbv beta in Hle2. lia.
+    - apply Forall_tl in Hrest. rewrite Forall_forall in Hrest. destruct (Hrest y Hin) as [_ Hy2].
+      assert (Hyin : In y rest) by (destruct rest; [destruct Hin|right; exact Hin]).
+      rewrite Forall_forall in Hle2. specialize (Hle2 y Hyin). cbv beta in Hle2.
+      specialize (Hramp ltac:(lia)). lia.
+  Qed.
